@@ -853,7 +853,12 @@ def parse_tree_to_objgraph(
         """
         try:
             if metaclass_of_grammar_rule is None:
-                metaclass_of_grammar_rule = metamodel[model_obj.__class__.__name__]
+                # The short name of a class of a grammar that is imported
+                # transitively is not visible from the main grammar.
+                cls_name = getattr(model_obj, "_tx_fqn", None)
+                if cls_name is None or cls_name not in metamodel:
+                    cls_name = model_obj.__class__.__name__
+                metaclass_of_grammar_rule = metamodel[cls_name]
         except KeyError as e:
             raise TextXSemanticError(
                 f'Unknown meta-class "{model_obj.__class__.__name__}".'
